@@ -219,7 +219,11 @@ func VerifHarness_C07_race() {
 		}
 		ran = true
 	}
+	early := verifrt.Choose("at-the-first-interleaving-point", 2) == 1 // before the checker takes the lock / inside it
 	vkInterleave = func(point string) {
+		if early != (point == "checkTxDelays: newly safe list taken, lock not yet held") {
+			return
+		}
 		if what != 0 && !ran && !serialised {
 			serialised = verifrt.RunUntilBlocked(other)
 			verifrt.Reach("C07.race.interleaved")
@@ -234,10 +238,23 @@ func VerifHarness_C07_race() {
 		other()
 	}
 	sawBad := false // unsafe or cancelled reported for t
-	for _, n := range rec.events {
+	// "reported safe once": the state goes from not-safe to safe at most once, and no update repeats
+	// the state the handlers were given just before (a confirmation that keeps the safe flag is not
+	// a second report; a second update saying the same thing is)
+	safeReports, repeated := 0, false
+	var prev *vkEvent
+	for i := range rec.events {
+		n := rec.events[i]
 		if n.txid != tid || (n.kind != "tx" && n.kind != "update") {
 			continue
 		}
+		if n.state.Safe && (prev == nil || !prev.state.Safe) {
+			safeReports++
+		}
+		if prev != nil && n.kind == "update" && n.state.Safe == prev.state.Safe && n.state.UnSafe == prev.state.UnSafe && n.state.Cancelled == prev.state.Cancelled && n.hasProof == prev.hasProof && n.state.UnconfirmedDepth == prev.state.UnconfirmedDepth {
+			repeated = true
+		}
+		prev = &rec.events[i]
 		verifrt.Sig("race", what, "both")
 		verifrt.Assert(!(n.state.Safe && n.state.UnSafe), "C07.state.never-safe-and-unsafe")
 		if sawBad {
@@ -248,6 +265,8 @@ func VerifHarness_C07_race() {
 			sawBad = true
 		}
 	}
+	verifrt.Sig("race", what, "safe-twice")
+	verifrt.Assert(safeReports <= 1 && !repeated, "C07.safe.reported-once")
 	// what the node stored agrees with what it reported last
 	stored, ferr := vkFetchState(ctx, node, tid)
 	verifrt.Assert(ferr == nil, "C07.race.state-stored")
